@@ -7,25 +7,33 @@
 //!    interleave concurrent queries at those points
 //!  - counters for the exit taken by the segment lookup
 
-use std::{
+// Only `core` paths here: an instrumented build may shadow the name `std` with a facade whose
+// synchronisation primitives belong to a controlled scheduler.
+use core::{
     any::type_name,
     cell::Cell,
     mem::{align_of, size_of},
-    sync::OnceLock,
+    sync::atomic::{AtomicUsize, Ordering},
 };
 
-static SCHED_POINT: OnceLock<fn(&'static str)> = OnceLock::new();
+/// the installed function as an address (0 = none)
+static SCHED_POINT: AtomicUsize = AtomicUsize::new(0);
 
 /// Install the function that is called at every scheduling point.
 /// Returns `false` when a function was already installed.
 pub fn install_sched_point(f: fn(&'static str)) -> bool {
-    SCHED_POINT.set(f).is_ok()
+    SCHED_POINT
+        .compare_exchange(0, f as usize, Ordering::SeqCst, Ordering::SeqCst)
+        .is_ok()
 }
 
 /// A scheduling point. Does nothing unless a function was installed.
 #[inline]
 pub fn sched_point(label: &'static str) {
-    if let Some(f) = SCHED_POINT.get() {
+    let p = SCHED_POINT.load(Ordering::SeqCst);
+    if p != 0 {
+        // Safety: the only non-zero value ever stored is a `fn(&'static str)` (see above)
+        let f: fn(&'static str) = unsafe { core::mem::transmute::<usize, fn(&'static str)>(p) };
         f(label)
     }
 }
